@@ -165,7 +165,11 @@ pub fn analyse(rep: &RunReport) -> Verdict {
         // A run of a handful of operations that burns tens of thousands of scheduling points is a livelock: if one task
         // spent most of them inside a single API call, that call never returns (it spins instead of blocking).
         let cap = rep.result.counters.steps;
-        for t in rep.result.tasks.iter().filter(|t| t.points * 10 >= cap * 6) {
+        // ... unless the harness kept the spinning going itself: futures that wake themselves on every poll, spurious
+        // returns and stray wake-ups make a runner poll again legitimately, so only the part of the run after the
+        // last injected fault counts, and it has to be at least half of the budget
+        let quiet = cap.saturating_sub(rep.result.counters.last_fault_step);
+        for t in rep.result.tasks.iter().filter(|t| t.points * 10 >= cap * 6 && quiet * 2 >= cap) {
             let call = world.ops.iter().find(|r| r.thread == Some(t.id) && r.outcome == CallOutcome::InCall);
             let awaiting = world.hrec.iter().position(|h| h.awaiting == Some(t.id));
             let dropping = world.objs.iter().position(|o| o.dropper == Some(t.id) && o.drop_inv.is_some() && o.drop_ret.is_none());
@@ -187,6 +191,29 @@ pub fn analyse(rep: &RunReport) -> Verdict {
             } else if let Some(o) = dropping {
                 v(&mut out, "C05", "drop_spins_for_ever", &[], 0, format!("dropping object {} never returned: task {} used {} of the run's {} scheduling points inside the drop (livelock)", o, t.id, t.points, cap));
                 verdict.inconclusive = false;
+            }
+        }
+    }
+
+    // A pool thread that burns the budget: it keeps polling an operation that is legitimately waiting for its event instead
+    // of parking the queue and going back to the pool.  Nothing wrong is ever computed, but the thread is lost to every other
+    // object for as long as the wait lasts: whatever was accepted on an object the program never blocks and is still not
+    // finished has been kept waiting by somebody else's suspended operation (C10).
+    if rep.result.outcome == Outcome::StepCap && !prog.blocked_objs.is_empty() {
+        let cap = rep.result.counters.steps;
+        let quiet = cap.saturating_sub(rep.result.counters.last_fault_step);
+        let pool_points: u64 = rep.result.tasks.iter().filter(|t| t.name == "desync jobs thread").map(|t| t.points).sum();
+        if quiet * 2 >= cap && pool_points * 10 >= cap * 6 {
+            let spinning_on: Vec<u32> = world.ops.iter().filter(|r| r.start.is_some() && r.fin.is_none() && r.obj.map_or(false, |o| prog.blocked_objs.contains(&o))).map(|r| r.id).collect();
+            for r in world.ops.iter() {
+                let Some(o) = r.obj else { continue };
+                if prog.blocked_objs.contains(&o) || r.fin.is_some() || r.kind == Kind::FutureSync || !r.kind.has_body() {
+                    continue;
+                }
+                if matches!(r.outcome, CallOutcome::Returned(_) | CallOutcome::InCall) {
+                    v(&mut out, "C10", "pool_thread_spins_on_suspended_object", &[r.id], r.inv.unwrap_or(0), format!("{} {} on object {} was never served: the pool's threads used {} of the run's {} scheduling points polling suspended operations {:?} of the blocked objects {:?} instead of parking them (pool maximum {})", r.tag, r.id, o, pool_points, cap, spinning_on, prog.blocked_objs, prog.pool_max));
+                    verdict.inconclusive = false;
+                }
             }
         }
     }
